@@ -56,4 +56,5 @@ func TestCheck(t *testing.T) {
 	rt.Rapid(e, "long", 6_000, 60_000, genLong, run)
 	rt.Rapid(e, "faults", 250_000, 2_500_000, genFaulty, run)
 	rt.Rapid(e, "unmarshal", 200_000, 2_000_000, genU, runU)
+	rt.Rapid(e, "unmarshal-faults", 80_000, 800_000, genUF, RunUF)
 }
